@@ -223,17 +223,20 @@ Theorem cmd_incr_missing delta now d k :
   lookup now d k = None ->
   cmd_incr delta now d [k] = (put d k (VStr (Z_to_bytes delta)) None, RInt delta).
 Proof. intro H. rewrite cmd_incr_core. apply incr_core_missing. exact H. Qed.
+Print Assumptions cmd_incr_missing.
 
 Theorem cmd_incr_ok delta now d k e b v :
   lookup now d k = Some e -> e_val e = VStr b -> strict_i64 b = Some v ->
   in_i64 (v + delta) = true ->
   cmd_incr delta now d [k] = (put d k (VStr (Z_to_bytes (v + delta))) (e_exp e), RInt (v + delta)).
 Proof. intros. rewrite cmd_incr_core. eapply incr_core_ok; eauto. Qed.
+Print Assumptions cmd_incr_ok.
 
 Theorem cmd_incrby_missing now d k nb n :
   parse_i64 nb = Some n -> lookup now d k = None ->
   cmd_incrby 1 now d [k; nb] = (put d k (VStr (Z_to_bytes n)) None, RInt n).
 Proof. intros Hp H. rewrite (cmd_incrby_core _ _ _ _ _ Hp). apply incr_core_missing. exact H. Qed.
+Print Assumptions cmd_incrby_missing.
 
 Theorem cmd_incrby_ok now d k nb n e b v :
   parse_i64 nb = Some n ->
@@ -241,6 +244,7 @@ Theorem cmd_incrby_ok now d k nb n e b v :
   in_i64 (v + n) = true ->
   cmd_incrby 1 now d [k; nb] = (put d k (VStr (Z_to_bytes (v + n))) (e_exp e), RInt (v + n)).
 Proof. intros Hp **. rewrite (cmd_incrby_core _ _ _ _ _ Hp). eapply incr_core_ok; eauto. Qed.
+Print Assumptions cmd_incrby_ok.
 
 Theorem cmd_decrby_ok now d k nb n e b v :
   parse_i64 nb = Some n -> n <> min_i64 ->
@@ -631,6 +635,7 @@ Theorem cmd_getrange_missing now d k sb eb s e :
   parse_i64 sb = Some s -> parse_i64 eb = Some e -> lookup now d k = None ->
   cmd_getrange now d [k; sb; eb] = (d, RBulk []).
 Proof. intros Hs He Hl. unfold cmd_getrange. rewrite Hs, He, Hl. reflexivity. Qed.
+Print Assumptions cmd_getrange_missing.
 
 (* a closed form of Redis' rule, independent of the order of the C statements:
    the reply is the bytes with index in [max 0 (norm start), min (len-1) (max 0 (norm stop))],
@@ -760,11 +765,13 @@ Corollary strict_i64_iff b z : strict_i64 b = Some z <-> b = Z_to_bytes z /\ in_
 Proof.
   split; [apply strict_i64_sound|]. intros [-> Hz]. apply strict_i64_Z_to_bytes. exact Hz.
 Qed.
+Print Assumptions strict_i64_iff.
 
 (* a counter result can always be incremented again: INCR output is strict input *)
 Corollary incr_result_reparses v delta :
   in_i64 (v + delta) = true -> strict_i64 (Z_to_bytes (v + delta)) = Some (v + delta).
 Proof. apply strict_i64_Z_to_bytes. Qed.
+Print Assumptions incr_result_reparses.
 
 Example decimal_ex :
   strict_i64 (s2b "-9223372036854775808"%string) = Some min_i64 /\
@@ -806,10 +813,12 @@ Proof.
   - apply app_nth1. exact Hlt.
   - rewrite app_nth2 by exact Hge. rewrite nth_repeatN. symmetry. apply nth_overflow. exact Hge.
 Qed.
+Print Assumptions setrange_nth_before.
 
 Corollary setrange_zero_padding old off v i :
   (length old <= i < off)%nat -> nth i (setrange_bytes old off v) 0%N = 0%N.
 Proof. intros [H1 H2]. rewrite setrange_nth_before by exact H2. apply nth_overflow. exact H1. Qed.
+Print Assumptions setrange_zero_padding.
 
 (* inside the patch: the new bytes *)
 Theorem setrange_nth_patch old off v i :
@@ -820,6 +829,7 @@ Proof.
     by (rewrite firstn_length, app_length, repeatN_length; lia).
   rewrite app_nth2 by lia. rewrite Hl. apply app_nth1. lia.
 Qed.
+Print Assumptions setrange_nth_patch.
 
 (* after the patch: the old tail *)
 Theorem setrange_nth_after old off v i :
@@ -860,9 +870,372 @@ Proof.
   destruct (max_str <? off + Zlen (x :: v)) eqn:E1; [apply Z.ltb_lt in E1; lia|].
   cbv zeta. f_equal. f_equal. unfold Zlen. rewrite setrange_length. cbn [length]. lia.
 Qed.
+Print Assumptions cmd_setrange_missing.
 
 Example setrange_ex :
   setrange_bytes (s2b "Hello World"%string) 6 (s2b "Redis"%string) = s2b "Hello Redis"%string /\
   setrange_bytes (s2b "ab"%string) 4 (s2b "x"%string) = [97; 98; 0; 0; 120]%N /\
   setrange_bytes (s2b "abcdef"%string) 1 (s2b "XY"%string) = s2b "aXYdef"%string.
 Proof. vm_compute. repeat split. Qed.
+
+(* ================================================================== *)
+(* 7. the SET option table (set_core)                                   *)
+(* ================================================================== *)
+
+(* NX on a visible key: no write, whatever the other options *)
+Theorem set_core_nx_visible now d k v o e :
+  so_nx o = true -> lookup now d k = Some e -> fst (set_core now d k v o) = d.
+Proof.
+  intros Hnx Hl. unfold set_core. rewrite Hl, Hnx.
+  destruct (so_get o && _); reflexivity.
+Qed.
+Print Assumptions set_core_nx_visible.
+
+Theorem set_core_nx_visible_reply now d k v o e :
+  so_nx o = true -> so_get o = false -> lookup now d k = Some e ->
+  set_core now d k v o = (d, RNil).
+Proof. intros Hnx Hg Hl. unfold set_core. rewrite Hl, Hnx, Hg. reflexivity. Qed.
+Print Assumptions set_core_nx_visible_reply.
+
+(* XX on a missing (or expired) key: no write *)
+Theorem set_core_xx_missing now d k v o :
+  so_xx o = true -> lookup now d k = None -> set_core now d k v o = (d, RNil).
+Proof. intros Hxx Hl. unfold set_core. rewrite Hl, Hxx. reflexivity. Qed.
+Print Assumptions set_core_xx_missing.
+
+(* GET against a non-string: WRONGTYPE, no write (even with NX/XX) *)
+Theorem set_core_get_wrongtype now d k v o e :
+  so_get o = true -> lookup now d k = Some e -> (forall b, e_val e <> VStr b) ->
+  set_core now d k v o = (d, wrongtype).
+Proof.
+  intros Hg Hl Hne. unfold set_core, str_of. rewrite Hl, Hg.
+  destruct (e_val e) eqn:Ev; try reflexivity. exfalso. eapply Hne. reflexivity.
+Qed.
+Print Assumptions set_core_get_wrongtype.
+
+(* the write cases.  "no type error" = GET absent or the old value is a string *)
+Definition set_no_wrongtype (o : setopts) (e : entry) : Prop :=
+  so_get o = false \/ exists b, e_val e = VStr b.
+
+Lemma set_core_visible_write now d k v o e :
+  lookup now d k = Some e -> so_nx o = false -> set_no_wrongtype o e ->
+  fst (set_core now d k v o) = put d k (VStr v) (if so_keep o then e_exp e else so_exp o).
+Proof.
+  intros Hl Hnx Hw. unfold set_core, str_of. rewrite Hl, Hnx.
+  destruct Hw as [Hg|[b Hb]].
+  - rewrite Hg. reflexivity.
+  - rewrite Hb. rewrite andb_false_r. reflexivity.
+Qed.
+
+(* KEEPTTL keeps the deadline of the overwritten entry *)
+Theorem set_core_keepttl now d k v o e :
+  lookup now d k = Some e -> so_nx o = false -> set_no_wrongtype o e -> so_keep o = true ->
+  fst (set_core now d k v o) = put d k (VStr v) (e_exp e).
+Proof. intros Hl Hnx Hw Hk. rewrite (set_core_visible_write _ _ _ _ _ _ Hl Hnx Hw), Hk. reflexivity. Qed.
+Print Assumptions set_core_keepttl.
+
+(* without KEEPTTL the deadline is the one given by EX/PX/EXAT/PXAT, or none *)
+Theorem set_core_newttl_visible now d k v o e :
+  lookup now d k = Some e -> so_nx o = false -> set_no_wrongtype o e -> so_keep o = false ->
+  fst (set_core now d k v o) = put d k (VStr v) (so_exp o).
+Proof. intros Hl Hnx Hw Hk. rewrite (set_core_visible_write _ _ _ _ _ _ Hl Hnx Hw), Hk. reflexivity. Qed.
+Print Assumptions set_core_newttl_visible.
+
+(* on a missing key there is nothing to keep: the deadline is so_exp o *)
+Theorem set_core_missing_write now d k v o :
+  lookup now d k = None -> so_xx o = false ->
+  set_core now d k v o = (put d k (VStr v) (so_exp o), if so_get o then RNil else ok).
+Proof. intros Hl Hxx. unfold set_core. rewrite Hl, Hxx. reflexivity. Qed.
+Print Assumptions set_core_missing_write.
+
+(* in every write case the stored value is VStr v, with a fresh version *)
+Lemma aget_put_same d k x exp :
+  aget (d_map (put d k x exp)) k = Some (mkE x exp (d_next d + 1)%N).
+Proof. unfold put; cbn [d_map]. apply aget_aset_same. Qed.
+
+Theorem set_core_stored now d k v o :
+  (* the complete case analysis: either nothing changes, or k holds VStr v *)
+  fst (set_core now d k v o) = d \/
+  exists exp, fst (set_core now d k v o) = put d k (VStr v) exp /\
+              aget (d_map (fst (set_core now d k v o))) k = Some (mkE (VStr v) exp (d_next d + 1)%N).
+Proof.
+  unfold set_core.
+  destruct (lookup now d k) as [e|].
+  - destruct (so_get o && _); [left; reflexivity|].
+    destruct (so_nx o); [left; reflexivity|].
+    right. eexists. cbn [fst]. split; [reflexivity|]. apply aget_put_same.
+  - destruct (so_xx o); [left; reflexivity|].
+    right. eexists. cbn [fst]. split; [reflexivity|]. apply aget_put_same.
+Qed.
+Print Assumptions set_core_stored.
+
+(* exactly when does SET write?  (the "otherwise" of the table) *)
+Theorem set_core_writes_iff now d k v o :
+  fst (set_core now d k v o) <> d <->
+  match lookup now d k with
+  | Some e => so_nx o = false /\ set_no_wrongtype o e
+  | None => so_xx o = false
+  end.
+Proof.
+  assert (Hput : forall exp, put d k (VStr v) exp <> d).
+  { intros exp E. apply (f_equal d_next) in E. rewrite put_next in E. lia. }
+  unfold set_core, set_no_wrongtype, str_of.
+  destruct (lookup now d k) as [e|].
+  - destruct (so_get o) eqn:Hg; destruct (e_val e) eqn:Ev; destruct (so_nx o) eqn:Hnx; cbn [andb fst];
+      split; intro H; try (exfalso; apply H; reflexivity); try apply Hput;
+      try (destruct H as [H1 H2]; try discriminate;
+           destruct H2 as [H2|[b H2]]; discriminate);
+      try (split; [reflexivity|]; first [left; reflexivity | right; eexists; reflexivity]).
+  - destruct (so_xx o); cbn [fst]; split; intro H; try discriminate; try reflexivity;
+      try apply Hput. exfalso; apply H; reflexivity.
+Qed.
+Print Assumptions set_core_writes_iff.
+
+(* replies of the write cases: GET gives the old string (or nil), otherwise OK *)
+Theorem set_core_visible_reply now d k v o e b :
+  lookup now d k = Some e -> e_val e = VStr b -> so_nx o = false ->
+  snd (set_core now d k v o) = if so_get o then RBulk b else ok.
+Proof.
+  intros Hl Hb Hnx. unfold set_core, str_of. rewrite Hl, Hb, Hnx, andb_false_r. reflexivity.
+Qed.
+Print Assumptions set_core_visible_reply.
+
+Example set_ex :
+  let d := fst (cmd_set 5 empty_db [s2b "k"%string; s2b "a"%string; s2b "PX"%string; s2b "1"%string]) in
+  (* KEEPTTL keeps the 1 ms deadline, plain SET clears it *)
+  lookup 5 (fst (cmd_set 5 d [s2b "k"%string; s2b "b"%string; s2b "keepttl"%string])) (s2b "k"%string)
+    = Some (mkE (VStr (s2b "b"%string)) (Some 1000005) 2%N) /\
+  lookup 5 (fst (cmd_set 5 d [s2b "k"%string; s2b "b"%string])) (s2b "k"%string)
+    = Some (mkE (VStr (s2b "b"%string)) None 2%N) /\
+  cmd_set 5 d [s2b "k"%string; s2b "b"%string; s2b "NX"%string] = (d, RNil) /\
+  cmd_set 5 d [s2b "j"%string; s2b "b"%string; s2b "XX"%string] = (d, RNil) /\
+  snd (cmd_set 5 d [s2b "k"%string; s2b "b"%string; s2b "GET"%string]) = RBulk (s2b "a"%string).
+Proof. vm_compute. repeat split. Qed.
+
+(* ================================================================== *)
+(* 9. frame: single-key string commands touch no other key              *)
+(* ================================================================== *)
+
+Ltac frame_tac :=
+  repeat break_match; cbn [fst]; try reflexivity;
+  try (unfold set_exp; apply lookup_put_other; assumption);
+  try (apply lookup_del_other; assumption).
+
+Lemma set_core_frame now d k v o k' :
+  k' <> k -> lookup now (fst (set_core now d k v o)) k' = lookup now d k'.
+Proof. intro Hne. unfold set_core. frame_tac. Qed.
+
+Lemma incr_core_frame now d k delta k' :
+  k' <> k -> lookup now (fst (incr_core now d k delta)) k' = lookup now d k'.
+Proof. intro Hne. unfold incr_core. frame_tac. Qed.
+
+Theorem cmd_set_frame now d k rest k' :
+  k' <> k -> lookup now (fst (cmd_set now d (k :: rest))) k' = lookup now d k'.
+Proof.
+  intro Hne. unfold cmd_set. destruct rest as [|v opts]; [reflexivity|].
+  destruct (scan_set now (S (length opts)) opts so0 false false false); try reflexivity.
+  apply set_core_frame. exact Hne.
+Qed.
+Print Assumptions cmd_set_frame.
+
+Theorem cmd_setnx_frame now d k rest k' :
+  k' <> k -> lookup now (fst (cmd_setnx now d (k :: rest))) k' = lookup now d k'.
+Proof. intro Hne. unfold cmd_setnx. frame_tac. Qed.
+Print Assumptions cmd_setnx_frame.
+
+Theorem cmd_setex_frame unit now d k rest k' :
+  k' <> k -> lookup now (fst (cmd_setex unit now d (k :: rest))) k' = lookup now d k'.
+Proof. intro Hne. unfold cmd_setex. frame_tac. Qed.
+Print Assumptions cmd_setex_frame.
+
+Theorem cmd_getset_frame now d k rest k' :
+  k' <> k -> lookup now (fst (cmd_getset now d (k :: rest))) k' = lookup now d k'.
+Proof.
+  intro Hne. unfold cmd_getset. destruct rest as [|v [|x r]]; try reflexivity.
+  apply set_core_frame. exact Hne.
+Qed.
+Print Assumptions cmd_getset_frame.
+
+Theorem cmd_getdel_frame now d k rest k' :
+  k' <> k -> lookup now (fst (cmd_getdel now d (k :: rest))) k' = lookup now d k'.
+Proof. intro Hne. unfold cmd_getdel. frame_tac. Qed.
+Print Assumptions cmd_getdel_frame.
+
+Theorem cmd_getex_frame now d k rest k' :
+  k' <> k -> lookup now (fst (cmd_getex now d (k :: rest))) k' = lookup now d k'.
+Proof. intro Hne. unfold cmd_getex. cbv zeta. frame_tac. Qed.
+Print Assumptions cmd_getex_frame.
+
+Theorem cmd_append_frame now d k rest k' :
+  k' <> k -> lookup now (fst (cmd_append now d (k :: rest))) k' = lookup now d k'.
+Proof. intro Hne. unfold cmd_append. frame_tac. Qed.
+Print Assumptions cmd_append_frame.
+
+Theorem cmd_setrange_frame now d k rest k' :
+  k' <> k -> lookup now (fst (cmd_setrange now d (k :: rest))) k' = lookup now d k'.
+Proof. intro Hne. unfold cmd_setrange. cbv zeta. frame_tac. Qed.
+Print Assumptions cmd_setrange_frame.
+
+Theorem cmd_incr_frame delta now d k rest k' :
+  k' <> k -> lookup now (fst (cmd_incr delta now d (k :: rest))) k' = lookup now d k'.
+Proof.
+  intro Hne. unfold cmd_incr. destruct rest; [|reflexivity]. apply incr_core_frame. exact Hne.
+Qed.
+Print Assumptions cmd_incr_frame.
+
+Theorem cmd_incrby_frame sign now d k rest k' :
+  k' <> k -> lookup now (fst (cmd_incrby sign now d (k :: rest))) k' = lookup now d k'.
+Proof.
+  intro Hne. unfold cmd_incrby. destruct rest as [|n [|x r]]; try reflexivity.
+  destruct (parse_i64 n); [|reflexivity]. apply incr_core_frame. exact Hne.
+Qed.
+Print Assumptions cmd_incrby_frame.
+
+(* read-only commands never change the database at all *)
+Theorem string_readonly now d args :
+  fst (cmd_get now d args) = d /\ fst (cmd_strlen now d args) = d /\
+  fst (cmd_getrange now d args) = d /\ fst (cmd_mget now d args) = d.
+Proof.
+  repeat split.
+  - unfold cmd_get. repeat break_match; reflexivity.
+  - unfold cmd_strlen. repeat break_match; reflexivity.
+  - unfold cmd_getrange. repeat break_match; reflexivity.
+  - unfold cmd_mget. destruct args; reflexivity.
+Qed.
+Print Assumptions string_readonly.
+
+(* MSET / MSETNX touch only the keys they name *)
+Theorem cmd_mset_frame now d args ps k' :
+  pairs_of args = Some ps -> ~ In k' (map fst ps) ->
+  lookup now (fst (cmd_mset now d args)) k' = lookup now d k'.
+Proof.
+  intros Hp Hn. unfold cmd_mset. destruct args as [|a0 args0]; [reflexivity|]. rewrite Hp. cbn [fst].
+  apply (mset_fold_other now ps d k' Hn).
+Qed.
+Print Assumptions cmd_mset_frame.
+
+Theorem cmd_msetnx_frame now d args ps k' :
+  pairs_of args = Some ps -> ~ In k' (map fst ps) ->
+  lookup now (fst (cmd_msetnx now d args)) k' = lookup now d k'.
+Proof.
+  intros Hp Hn. unfold cmd_msetnx. destruct args as [|a0 args0]; [reflexivity|]. rewrite Hp.
+  destruct (existsb _ ps); [reflexivity|]. cbn [fst]. apply (mset_fold_other now ps d k' Hn).
+Qed.
+Print Assumptions cmd_msetnx_frame.
+
+Example frame_ex :
+  let d := fst (cmd_mset 0 empty_db [s2b "a"%string; s2b "1"%string; s2b "b"%string; s2b "2"%string]) in
+  lookup 0 (fst (cmd_incr 1 0 d [s2b "a"%string])) (s2b "b"%string) = lookup 0 d (s2b "b"%string) /\
+  lookup 0 (fst (cmd_getdel 0 d [s2b "a"%string])) (s2b "b"%string) = lookup 0 d (s2b "b"%string) /\
+  lookup 0 (fst (cmd_getdel 0 d [s2b "a"%string])) (s2b "a"%string) = None.
+Proof. vm_compute. repeat split. Qed.
+
+(* ================================================================== *)
+(* 10. extras                                                           *)
+(* ================================================================== *)
+
+(* MSET: unconditional variant of the MSETNX write clause *)
+Theorem mset_all now d args ps :
+  args <> [] -> pairs_of args = Some ps ->
+  let d' := fst (cmd_mset now d args) in
+  snd (cmd_mset now d args) = ok /\
+  (forall ps1 k v ps2, ps = ps1 ++ (k, v) :: ps2 -> ~ In k (map fst ps2) ->
+     exists e, lookup now d' k = Some e /\ e_val e = VStr v /\ e_exp e = None) /\
+  (forall k', ~ In k' (map fst ps) -> lookup now d' k' = lookup now d k').
+Proof.
+  intros Hne Hp. cbv zeta. unfold cmd_mset. destruct args as [|a0 args0]; [congruence|]. rewrite Hp.
+  cbn [fst snd]. split; [reflexivity|]. split.
+  - intros ps1 k v ps2 -> Hn. apply (mset_fold_last now ps1 ps2 k v d Hn).
+  - intros k' Hn. apply (mset_fold_other now ps d k' Hn).
+Qed.
+Print Assumptions mset_all.
+
+(* DECRBY with the decrement LLONG_MIN.  [cmd_decrby_ok] above excludes n = min_i64
+   because the model (like the Go code, which computes -decrement in int64) negates
+   with wrap-around: the delta is min_i64 itself, so for a stored v >= 0 the command
+   SUCCEEDS and stores v + min_i64, although the true difference v - min_i64 is not
+   representable.  Redis 7 decrbyCommand rejects this argument up front
+   ("ERR decrement would overflow").  Recorded here as a proved deviation. *)
+Theorem decrby_min_i64_deviation now d k nb e b v :
+  parse_i64 nb = Some min_i64 ->
+  lookup now d k = Some e -> e_val e = VStr b -> strict_i64 b = Some v -> 0 <= v ->
+  cmd_incrby (-1) now d [k; nb] =
+    (put d k (VStr (Z_to_bytes (v + min_i64))) (e_exp e), RInt (v + min_i64)) /\
+  in_i64 (v - min_i64) = false.
+Proof.
+  intros Hp Hl Hb Hs Hv. pose proof (strict_i64_in _ _ Hs) as Hin. apply in_i64_iff in Hin.
+  split.
+  - unfold cmd_incrby. rewrite Hp. cbn [Z.eqb].
+    assert (Hw : wrap64 (- min_i64) = min_i64) by (vm_compute; reflexivity). rewrite Hw.
+    eapply incr_core_ok; eauto. apply in_i64_iff. unfold min_i64. lia.
+  - apply in_i64_false_iff. unfold min_i64. lia.
+Qed.
+Print Assumptions decrby_min_i64_deviation.
+
+Example decrby_min_ex :
+  let d := fst (cmd_set 0 empty_db [s2b "k"%string; s2b "5"%string]) in
+  snd (cmd_incrby (-1) 0 d [s2b "k"%string; s2b "-9223372036854775808"%string]) = RInt (-9223372036854775803).
+Proof. vm_compute. reflexivity. Qed.
+
+(* APPEND keeps the deadline and replies the new length; STRLEN/GET read the string *)
+Theorem cmd_append_spec now d k v :
+  match lookup now d k with
+  | Some e => forall b, e_val e = VStr b ->
+       cmd_append now d [k; v] = (put d k (VStr (b ++ v)) (e_exp e), RInt (Zlen b + Zlen v))
+  | None => cmd_append now d [k; v] = (put d k (VStr v) None, RInt (Zlen v))
+  end.
+Proof.
+  unfold cmd_append, str_of. destruct (lookup now d k) as [e|]; [|reflexivity].
+  intros b Hb. rewrite Hb. unfold Zlen. rewrite app_length, Nat2Z.inj_add. reflexivity.
+Qed.
+Print Assumptions cmd_append_spec.
+
+Theorem cmd_get_spec now d k :
+  cmd_get now d [k] =
+  (d, match lookup now d k with
+      | Some e => match e_val e with VStr b => RBulk b | _ => wrongtype end
+      | None => RNil
+      end).
+Proof.
+  unfold cmd_get, str_of. destruct (lookup now d k) as [e|]; [|reflexivity].
+  destruct (e_val e); reflexivity.
+Qed.
+Print Assumptions cmd_get_spec.
+
+Theorem cmd_strlen_spec now d k :
+  cmd_strlen now d [k] =
+  (d, match lookup now d k with
+      | Some e => match e_val e with VStr b => RInt (Zlen b) | _ => wrongtype end
+      | None => RInt 0
+      end).
+Proof.
+  unfold cmd_strlen, str_of. destruct (lookup now d k) as [e|]; [|reflexivity].
+  destruct (e_val e); reflexivity.
+Qed.
+Print Assumptions cmd_strlen_spec.
+
+(* SETNX is the one-pair case of MSETNX *)
+Theorem cmd_setnx_spec now d k v :
+  cmd_setnx now d [k; v] =
+  match lookup now d k with
+  | Some _ => (d, RInt 0)
+  | None => (put d k (VStr v) None, RInt 1)
+  end.
+Proof. reflexivity. Qed.
+Print Assumptions cmd_setnx_spec.
+
+Theorem setnx_is_msetnx now d k v : cmd_setnx now d [k; v] = cmd_msetnx now d [k; v].
+Proof.
+  unfold cmd_setnx, cmd_msetnx. cbn [pairs_of existsb fst snd fold_left orb].
+  destruct (lookup now d k); reflexivity.
+Qed.
+Print Assumptions setnx_is_msetnx.
+
+(* GETDEL removes exactly a string key and returns its value *)
+Theorem cmd_getdel_spec now d k e b :
+  lookup now d k = Some e -> e_val e = VStr b ->
+  cmd_getdel now d [k] = (del d k, RBulk b) /\ lookup now (del d k) k = None.
+Proof.
+  intros Hl Hb. unfold cmd_getdel, str_of. rewrite Hl, Hb. split; [reflexivity|apply lookup_del_same].
+Qed.
+Print Assumptions cmd_getdel_spec.
